@@ -112,9 +112,9 @@ def run_case(case):
                         V.append(dict(clause="denormalize_not_monotone"))
                         break
             elif fam == "exp_id":
-                xe = tmap(lambda l: l * 5.0, x)
+                xe = tmap(lambda l: l * rnd.choice([1.0, 5.0, 20.0, 40.0]), x)  # log-space parameters down to -40 (exp still a normal float32)
                 ex = Exponential.init()
-                ok, why = close(ex.inv(ex.apply(xe)), xe, rtol=1e-5, atol=1e-5)
+                ok, why = close(ex.inv(ex.apply(xe)), xe, rtol=2e-6, atol=1e-5)
                 counters["roundtrips_checked"] += 1
                 if not ok:
                     V.append(dict(clause="exponential_roundtrip", detail=why))
